@@ -4,7 +4,7 @@ from .core import enc, run_behaviours, ModelError
 from .render import schema_lines, cmp_sec, NULL
 
 PLAIN = [c for c in range(33, 256) if chr(c) not in " #\"'\t\n\r={}()+,*/$\\:-" and not chr(c).isdigit()
-         and chr(c) not in "abcdefABCDEFnrtvxsclfqVUE" and c != 127]
+         and chr(c) not in "abcdefABCDEFnrtvxsclfqVUER" and c != 127]     # (no 'R': "$R" is the driver's scratch-root marker)
 
 
 def b2s(x):
